@@ -83,7 +83,7 @@ func callOne(schema any, name string, in reflect.Value, render func(any, error) 
 		defer func() {
 			if p := recover(); p != nil {
 				if e, ok := p.(error); ok && must {
-					out = render(nil, e)
+					out = render(nil, e) + errTypeTag(e)
 				} else {
 					out = "panic:" + strings.ReplaceAll(strings.ReplaceAll(fmt.Sprint(p), " ", "_"), ";", ",")
 				}
@@ -94,7 +94,7 @@ func callOne(schema any, name string, in reflect.Value, render func(any, error) 
 		if len(res) == 2 && !res[1].IsNil() {
 			err = res[1].Interface().(error)
 		}
-		out = render(res[0].Interface(), err)
+		out = render(res[0].Interface(), err) + errTypeTag(err)
 	}()
 	return out
 }
